@@ -44,6 +44,31 @@ func main() {
 	// net/http and httputil report aborted handlers through the std logger: keep stdout/stderr for verdicts
 	log.SetOutput(io.Discard)
 	hx.QuietPikeLog(filepath.Join(f.Scratch, "pike-inproc.log"))
+	if f.Replay != "" {
+		// re-execute the recorded case: case lists are a pure function of (seed, tier), so the run is
+		// repeated with the recorded seed and tier (schedule-dependent cases: the same directed
+		// schedules and stress are repeated); exit 1 iff a violation of the recorded kind shows again
+		seed, tier, kind, err := hx.ReadReplay(f.Replay)
+		if err != nil {
+			fmt.Println("cannot read replay file:", err)
+			os.Exit(3)
+		}
+		f.Seed, f.Tier = seed, tier
+		fmt.Printf("replaying %s: property=%s seed=%d tier=%s kind=%s\n", f.Replay, id, seed, tier, kind)
+		r := hx.NewRun(id, c.level, f)
+		c.fn(r)
+		code := r.Finish()
+		if r.SawKind(kind) {
+			fmt.Printf("REPRODUCED kind=%s\n", kind)
+			os.Exit(1)
+		}
+		if code == 1 {
+			fmt.Printf("NOT REPRODUCED kind=%s (other violations were reported)\n", kind)
+			os.Exit(1)
+		}
+		fmt.Printf("NOT REPRODUCED kind=%s\n", kind)
+		os.Exit(0)
+	}
 	r := hx.NewRun(id, c.level, f)
 	c.fn(r)
 	os.Exit(r.Finish())
